@@ -16,12 +16,19 @@
   a `decide` on the generated facts: a handle that stops owning the `Arc`, a
   JIT-first field order, a constant that is no longer cloned, a second
   `free_memory` site, an `into_func` closure that captures only the function
-  pointer, or code-referenced data owned by the package instead of the shared
-  `ModuleData` / the JIT module makes `facts_good` — hence every theorem — fail to check.
+  pointer, code-referenced data owned by the package instead of the shared
+  `ModuleData` / the JIT module, a `Drop for RotoConstant` that skips the drop
+  function for some size class of constant, or a keep-alive collection of
+  registered functions with one entry per Rust type instead of one per `Arc`
+  makes `facts_good` — hence every theorem — fail to check.
+  Script constants come in two size classes (`ModInfo.nzst` of them are of a
+  zero-sized type): T1–T3 hold for both, because the generated body of
+  `RotoConstant::drop` calls the drop function whatever the size.
 -/
 import RotoV.Model.Lifetime
 import RotoV.Lemmas.Lifetime
 import RotoV.Lemmas.LifetimeOps
+import RotoV.Lemmas.LifetimeKeep
 import RotoV.Generated.Lifetime
 
 namespace RotoV.C11
@@ -166,14 +173,38 @@ theorem into_func_keeps (ops : List Op) (i : Nat) (h : Handle)
   rw [hget, hi']
   rfl
 
+/-- **T6.** A runtime may hold any number of registered functions with captured
+    state, several of them made by one closure expression (one Rust type).  After
+    any history (`KOp`: the operations of the main model, compilations naming the
+    further functions their script calls, and the registration of such
+    functions), a call through any live handle reaches the state of EVERY
+    registered function its script calls: the module is still allocated and its
+    keep-alive collection holds each of their `Arc`s (`sibCallOk`: each is held
+    by a live runtime or an allocated module).  (Fails to check when the
+    generated collection has one entry per Rust type.) -/
+theorem live_handle_reaches_called_fns (ops : List KOp) (h : Handle)
+    (hh : h ∈ (krun facts ops).1.hs) :
+    sibCallOk (krun facts ops).1 (krun facts ops).2 h.k = true := by
+  have hG := good_of_goodB facts_good
+  have hI := kinv_run hG ops
+  exact sibCallOk_of_alive hG hI h.k (hI.main.toInvCore.mem_alive (hI.main.strong_pos_of_handle hh))
+
+/-- **T6'.** … and that is exactly the `Vec` discipline: the collection holds every
+    called function for every set of called functions iff it has one entry per `Arc`;
+    the generated one has. -/
+theorem called_fns_kept :
+    (∀ (called : List Sib) (f : Sib), f ∈ called → f ∈ keep facts.fnsKeep called)
+      ∧ ∀ key, (∀ (called : List Sib) (f : Sib), f ∈ called → f ∈ keep key called) ↔ key = .perArc :=
+  ⟨(keep_holds_called_iff facts.fnsKeep).2 (good_of_goodB facts_good).keep, keep_holds_called_iff⟩
+
 /-! ### non-vacuity -/
 
 /-- a hot-reload history: runtime with constant and closure, version 1 compiled
     and a handle taken, version 2 compiled, then runtime, both packages dropped:
     the handle of version 1 is still there and callable -/
 def reload : List Op :=
-  [.buildRuntime 0, .registerConst 0, .registerClosure 0, .compile 0 1 2 true true true 1240, .getHandle 1,
-   .compile 0 2 1 true true true 2238, .dropRuntime 0, .dropPackage 1, .dropPackage 2]
+  [.buildRuntime 0, .registerConst 0, .registerClosure 0, .compile 0 1 2 1 true true true 1240, .getHandle 1,
+   .compile 0 2 1 0 true true true 2238, .dropRuntime 0, .dropPackage 1, .dropPackage 2]
 
 example : (run facts reload).hs.length = 1 ∧ callHandle (run facts reload) 0 = some (.ok 1240)
     ∧ (run facts reload).relCount (.code 2) = 1 ∧ (run facts reload).relCount (.scriptConst 2 0) = 1
@@ -198,7 +229,7 @@ example : callHandle (run { facts with handleHoldsArc := false } reload) 0 = som
 
 /-- a handle turned into a closure by `into_func` survives its package and the runtime like any handle … -/
 def reloadFn : List Op :=
-  [.buildRuntime 0, .registerConst 0, .registerClosure 0, .compile 0 1 2 true true true 1240, .getHandle 1,
+  [.buildRuntime 0, .registerConst 0, .registerClosure 0, .compile 0 1 2 1 true true true 1240, .getHandle 1,
    .intoFunc 0, .dropPackage 1, .dropRuntime 0]
 
 example : (run facts reloadFn).hs.map (·.isFn) = [true] ∧ callHandle (run facts reloadFn) 0 = some (.ok 1240)
@@ -209,7 +240,7 @@ example : (run facts reloadFn).hs.map (·.isFn) = [true] ∧ callHandle (run fac
   decide
 
 /-- a `TestCase` keeps its module alive like a handle, and releases it when dropped -/
-example : let h := [Op.buildRuntime 0, .registerClosure 0, .compile 0 1 1 false true true 77, .getTest 1,
+example : let h := [Op.buildRuntime 0, .registerClosure 0, .compile 0 1 1 0 false true true 77, .getTest 1,
                     .dropPackage 1, .dropRuntime 0]
     callHandle (run facts h) 0 = some (.ok 77) ∧ (run facts h).relCount (.code 1) = 0
       ∧ (run facts h).relCount (.closure 0) = 0
@@ -239,8 +270,45 @@ example : callHandle (run { facts with dataHolders := [.jit, .package] } reload)
 example : goodB { facts with moduleFields := .plain :: facts.moduleFields ++ [.plain]
                              dataHolders := .moduleData :: facts.dataHolders } = true := by decide
 
+/-- T2 has teeth for the size class: a `RotoConstant::drop` that returns early for `size == 0` never runs
+    the drop function of a zero-sized script constant (constant 0 of version 1 here) — released zero
+    times after everything is gone, while the sized constant next to it is released once; guarding only
+    the deallocation is fine -/
+example : let early : List (SizeGuard × DropAct) := [(.ifZst, .ret), (.always, .callDropFn), (.always, .dealloc)]
+    let s := run { facts with constDrop := early } (reload ++ [.dropHandle 0])
+    s.relCount (.scriptConst 1 0) = 0 ∧ s.relCount (.scriptConst 1 1) = 1 ∧ s.relCount (.code 1) = 1
+      ∧ goodB { facts with constDrop := early } = false
+      ∧ goodB { facts with constDrop := [(.always, .callDropFn), (.ifSized, .dealloc)] } = true
+      ∧ goodB { facts with constDrop := [(.always, .dealloc), (.always, .callDropFn)] } = false := by
+  decide
+
+/-- … and on the generated facts the zero-sized constant of `reload` is released exactly once, with the last handle -/
+example : (run facts reload).relCount (.scriptConst 1 0) = 0 ∧ ((run facts reload).info 1).nzst = 1
+    ∧ (run facts (reload ++ [.dropHandle 0])).relCount (.scriptConst 1 0) = 1 := by
+  decide
+
+/-- T6's hypotheses are met, and it has teeth: a runtime with two closures of one Rust type (family members
+    0 and 1) and a zero-sized one; version 1 calls all three; package and runtime go, the handle stays.  With
+    one entry per `Arc` the call reaches all of them; keyed by the Rust type the second closure of the type
+    was never held, and its state went with the runtime. -/
+def siblings : List KOp :=
+  [.main (.buildRuntime 0) [], .regSibs 0, .main (.compile 0 1 1 1 false false false 7) (family 0),
+   .main (.getHandle 1) [], .main (.dropPackage 1) [], .main (.dropRuntime 0) []]
+
+example : (krun facts siblings).1.hs.length = 1 ∧ sibCallOk (krun facts siblings).1 (krun facts siblings).2 1 = true
+    ∧ (family 0).all (sibLive (krun facts siblings).1 (krun facts siblings).2) = true
+    ∧ (family 0).all (sibLive (krun facts (siblings ++ [.main (.dropHandle 0) []])).1
+        (krun facts (siblings ++ [.main (.dropHandle 0) []])).2) = false := by
+  decide
+
+example : let F := { facts with fnsKeep := .perRustType }
+    sibCallOk (krun F siblings).1 (krun F siblings).2 1 = false
+      ∧ (family 0).map (sibLive (krun F siblings).1 (krun F siblings).2) = [true, false, true]
+      ∧ sibCallOk (krun F (siblings.take 5)).1 (krun F (siblings.take 5)).2 1 = true := by
+  decide
+
 /-- the mapped-code hypothesis of T3 is met by every freshly compiled module -/
-example : (run facts [.buildRuntime 0, .compile 0 1 1 false false false 7]).mapped 1 = true := by decide
+example : (run facts [.buildRuntime 0, .compile 0 1 1 1 false false false 7]).mapped 1 = true := by decide
 
 /-- T4 is not vacuous: with a live handle of version 1, dropping the package of
     version 2 is an operation on 2 ≠ 1, version 1 has a callable handle, and version 2's own
